@@ -1,1 +1,56 @@
-(* placeholder *)
+(* C07 — DiagramRule passes exactly when the imports conform to the diagram.
+   [diagram_apply g only base d]: rules generated from the parsed dependencies d (one should(-only) rule
+   per component with arrows, one should-not rule per component over all non-targets), evaluated all,
+   failures aggregated.  [dwf]: components exist, pairwise unrelated, arrows join distinct components.
+   Proof: every generated rule is a strict rule, so C01's theorem applies to each. *)
+From Coq Require Import List Bool NArith.
+From PTA Require Import Sx Names Graph Search Rule SpecRule Diagram NamesProofs SearchProofs RuleProofs DiagramProofs.
+Import ListNotations.
+
+Section C07.
+Context (comp : Type) (ceqb : comp -> comp -> bool) (ceqb_spec : forall x y, reflect (x = y) (ceqb x y)).
+Context (rmatch : N -> list comp -> bool).
+
+(* passes exactly when, for every ordered pair of distinct components (a, b), a imports b iff the diagram draws a->b,
+   and (should-only mode) no component with outgoing arrows imports anything outside its drawn targets and itself *)
+Theorem C07_conformance : forall g (only : bool) (d : @pdeps comp),
+  dwf ceqb g d ->
+  (diagram_apply ceqb rmatch g only None d = Pass <->
+   (forall a b, In a (pd_mods d) -> In b (pd_mods d) -> a <> b ->
+      (sp_edge ceqb g true (Named a) (Named b) = true <-> In (a, b) (pd_rel d))) /\
+   (only = true -> forall a, In a (dependors ceqb d) ->
+      sp_other ceqb g true (Named a) (map Named (targets ceqb d a)) = false)).
+Proof. exact (diagram_conformance ceqb ceqb_spec rmatch). Qed.
+
+(* with_base_module(p) behaves exactly like writing every component as p.name *)
+Theorem C07_base_module : forall g only p (d : @pdeps comp),
+  diagram_apply ceqb rmatch g only (Some p) d =
+  diagram_apply ceqb rmatch g only None
+    {| pd_mods := map (app p) (pd_mods d); pd_rel := map (fun e => (p ++ fst e, p ++ snd e)) (pd_rel d) |}.
+Proof. exact (base_module_is_prefixing ceqb rmatch). Qed.
+
+(* the error aggregates the messages of ALL violated pairwise rules: when no rule errs, a line is in the aggregated
+   failure exactly when it is in the failure of some rule *)
+Theorem C07_aggregates : forall (os : list (@outcome comp)) l,
+  (forall o, In o os -> forall e, o <> Err e) ->
+  ((exists ls, aggregate os false [] = Fail ls /\ In l ls) <-> (exists ls0, In (Fail ls0) os /\ In l ls0)).
+Proof.
+  intros os l Hne. rewrite (aggregate_lines os false [] l Hne). split.
+  - intros [_ [[]|H]]. exact H.
+  - intros [ls0 [H1 H2]]. split; [right; eauto|right; eauto].
+Qed.
+End C07.
+
+Print Assumptions C07_conformance.
+Print Assumptions C07_base_module.
+Print Assumptions C07_aggregates.
+
+(* non-vacuity: components r.a, r.b, r.c; diagram a -> b; imports a.x -> b conform; adding c -> a breaks it *)
+Open Scope N_scope.
+Example C07_example :
+  let d := {| pd_mods := [[1;2]; [1;3]; [1;4]]; pd_rel := [([1;2], [1;3])] |} in
+  let g1 := {| nodes := [[1]; [1;2]; [1;2;9]; [1;3]; [1;4]]; imps := [([1;2;9], [1;3])] |} in
+  let g2 := {| nodes := [[1]; [1;2]; [1;2;9]; [1;3]; [1;4]]; imps := [([1;2;9], [1;3]); ([1;4], [1;2])] |} in
+  diagram_apply N.eqb (fun _ _ => false) g1 true None d = Pass /\
+  diagram_apply N.eqb (fun _ _ => false) g2 true None d = Fail [LConc [1;4] [1;2]].
+Proof. split; vm_compute; reflexivity. Qed.
